@@ -295,6 +295,8 @@ class ScriptGen(object):
                 return "(- %s %s)" % (g(s), g(s)) if r.random() < 0.7 else "(- %s)" % g(s)
             if k == "/":
                 return "(/ %s %s)" % (g(REAL), self.literal(REAL))
+            if k == "div":
+                return "(div %s %s)" % (g(INT), r.choice([self.literal(INT) or g(INT), g(INT)]))
             if k == "to_real":
                 return "(to_real %s)" % g(INT)
             if k == "bv2nat":
@@ -303,8 +305,8 @@ class ScriptGen(object):
                 return "(str.len %s)" % g(STR)
             if k == "str.indexof":
                 return "(str.indexof %s %s %s)" % (g(STR), g(STR), g(INT))
-            if k == "str.to.int":
-                return "(str.to.int %s)" % g(STR)
+            if k in ("str.to.int", "str.to_int"):
+                return "(%s %s)" % (k, g(STR))
         if s == STR:
             if k == "str.++":
                 return "(str.++ %s)" % " ".join(g(STR) for _ in range(n))
@@ -314,8 +316,8 @@ class ScriptGen(object):
                 return "(str.substr %s %s %s)" % (g(STR), g(INT), g(INT))
             if k == "str.replace":
                 return "(str.replace %s %s %s)" % (g(STR), g(STR), g(STR))
-            if k == "int.to.str":
-                return "(int.to.str %s)" % g(INT)
+            if k in ("int.to.str", "str.from_int"):
+                return "(%s %s)" % (k, g(INT))
         if s.startswith("(_ BitVec"):
             w = int(s.split()[2].rstrip(")"))
             if k in ("bvnot", "bvneg"):
@@ -373,11 +375,11 @@ class ScriptGen(object):
                 ops += ["forall", "exists"]
             return ops
         if s == INT:
-            ops = ["+", "-", "*", "+", "-"]
+            ops = ["+", "-", "*", "+", "-", "div"]
             if has(isbv):
                 ops.append("bv2nat")
             if STR in self.sorts:
-                ops += ["str.len", "str.indexof", "str.to.int"]
+                ops += ["str.len", "str.indexof", "str.to.int", "str.to_int"]
             return ops
         if s == REAL:
             ops = ["+", "-", "*", "/"]
@@ -385,7 +387,7 @@ class ScriptGen(object):
                 ops.append("to_real")
             return ops
         if s == STR:
-            return ["str.++", "str.at", "str.substr", "str.replace", "int.to.str"]
+            return ["str.++", "str.at", "str.substr", "str.replace", "int.to.str", "str.from_int"]
         if isbv(s):
             return ["bvnot", "bvneg", "bvand", "bvor", "bvadd", "bvmul", "bvxor", "bvsub", "bvudiv", "bvurem", "bvshl", "bvlshr",
                     "bvashr", "bvsdiv", "bvsrem", "bvsmod", "bvnand", "bvnor", "bvxnor", "bvcomp", "extract", "concat",
@@ -467,6 +469,16 @@ def directed(rnd):
     out.append(("strings", "(declare-fun s () String)(assert (= (str.++ s \"a\"\"b\") \"x\"))(assert (str.prefixof \"a\" s))(assert (= (str.at s 0) (str.substr s 0 1)))(assert (= (int.to.str (str.to.int s)) s))"))
     out.append(("get-value-terms", "(declare-fun %s () Int)(declare-fun %s () Int)(get-value (%s (+ %s %s) (let ((%s %s)) %s)))" % (v1, v2, v1, v1, v2, v1, v2, v1)))
     out.append(("to_bv", "(assert (= ((_ to_bv 8) 5) #x05))"))
+    out.append(("let-extension-issue159", "(declare-fun %s () Int)(assert (let ((a %s) (b (+ a %s))) (> b a)))" % (v1, v1, v1)))
+    out.append(("let-parallel-duplicate", "(declare-fun %s () Int)(assert (let ((a 1) (a 2)) (= a %s)))(assert (= a 1))" % (v1, v1)))
+    out.append(("let-shadows-define", "(define-fun %s () Int %d)(assert (let ((%s %d) (%s %s)) (= %s %d)))" % (v1, c1, v1, c2, v2, v1, v2, c1)))
+    out.append(("define-after-declare-pop", "(push 1)(declare-fun %s () Int)(pop 1)(define-fun %s () Int %d)(assert (= %s %d))" % (v1, v1, c1, v1, c1)))
+    out.append(("declare-after-define", "(define-fun %s () Int %d)(declare-fun %s () Int)(assert (= %s %d))" % (v1, c1, v2, v1, c1)))
+    out.append(("multi-var-quantifier", "(declare-fun p (Int Bool (_ BitVec 2)) Bool)(assert (forall ((%s Int) (%s Bool) (w (_ BitVec 2))) (exists ((w Int) (%s Int)) (p %s %s #b01))))" % (v1, v2, v1, v1, v2)))
+    out.append(("int-div", "(declare-fun i () Int)(assert (= (div i 2) (div 255 (- 10))))(assert (= (div (- 7) 2) (- 4)))"))
+    out.append(("string-names-26", "(declare-fun s () String)(assert (= (str.from_int (str.to_int s)) (int.to.str (str.to.int s))))"))
+    out.append(("quoted-declarations", "(declare-const |x y| Bool)(declare-fun |f g| (Int) Int)(define-fun |h k| ((|a b| Int) (c Bool)) Int (ite (and c |x y|) (|f g| |a b|) 0))(assert (= (|h k| 1 true) 2))(get-value ((|h k| 0 false)))"))
+    out.append(("cr-lf-lines", "(declare-fun p () Bool)\r\n(declare-fun q () Bool)\r\n(assert (and p\r\n q))\r\n(check-sat)\r\n"))
     out.append(("pow", "(declare-fun r () Real)(assert (= (pow r 2) (* r r)))"))
     return out
 
